@@ -19,7 +19,10 @@ Inductive behaviour :=
 Record kparams := {
   kp_grace : Z;             (* seconds Kill waits for a graceful exit (client.go Kill) *)
   kp_rpc_deadline : option Z; (* deadline of the gRPC Shutdown request, None = unbounded *)
-  kp_keepalive : Z          (* yamux keep-alive bound for a peer that stopped answering (net/rpc) *)
+  kp_keepalive : Z;         (* yamux keep-alive bound for a peer that stopped answering (net/rpc) *)
+  kp_kill_ctx_fresh : bool  (* runner.Kill is handed a context that cannot already be done (context.Background()); when it
+                               is not, the context may have run out with the grace period, and a runner that honours its
+                               context then refuses the request *)
 }.
 
 Record kresult := {
@@ -64,8 +67,11 @@ Definition kill (P : kparams) (pr : kproto) (b : behaviour) : kresult :=
           let clean := match b with ExitsAtOnce | ExitsAfterDelay => true | _ => false end in
           if graceful && exits_in_grace
           then {| k_returns := true; k_budget := t; k_forced := false; k_clean_exit := clean; k_exited := true |}
-          else {| k_returns := true; k_budget := (t + (if graceful then kp_grace P else 0))%Z; k_forced := true;
-                  k_clean_exit := false; k_exited := true |}
+          else
+            (* the force kill; without it the process lives on and Kill waits for its goroutines for ever *)
+            let carried_out := kp_kill_ctx_fresh P || negb graceful in
+            {| k_returns := carried_out; k_budget := (t + (if graceful then kp_grace P else 0))%Z; k_forced := true;
+               k_clean_exit := false; k_exited := carried_out |}
       end
   end.
 
